@@ -447,6 +447,56 @@ fn main() {
         t
     });
 
+    // ---- S8: 32-bit limb alphabet at the multiply/carry overflow boundaries of a word-wise scale-up: x built from
+    // 1..3 limbs drawn from {0, 1, 2^31, MAX, W-1, W, W+1, (2^64 mod 10^k) +- 1, ...} with W = floor(2^64/10^k)
+    // (and floor(2^32/10^k)), re-scaled by 10^k through every overload against a partner at scale k, k = 1..21
+    let s8k: Vec<u64> = (1..=21).collect();
+    run.bound("S8_gaps", json!(s8k));
+    run.par("S8 limb-boundary alphabet across a scale-up", s8k.len(), |ki| {
+        let k = s8k[ki];
+        let mut t = Tally::default();
+        let p = pow10(k);
+        let two32 = BigInt::one() << 32usize;
+        let mut words: Vec<u32> = vec![0, 1, 1 << 31, u32::MAX, u32::MAX - 1];
+        for w in [&two64 / &p, &two32 / &p, (&two64 / &p) >> 32usize, (&two64 % &p), &two64 / &p % &two32, (&two64 % &p) % &two32] {
+            for d in [-1i64, 0, 1] {
+                let v = &w + d;
+                if v >= BigInt::zero() && v < two32 {
+                    words.push(v.to_string().parse().unwrap());
+                }
+            }
+        }
+        words.sort();
+        words.dedup();
+        let nw = words.len();
+        let partners: Vec<Dec> = vec![Dec::new(0, k as i128), Dec::new(1, k as i128), Dec::new(-7, k as i128), Dec { n: &p - 1, s: k as i128 }];
+        for len in 1..=3usize {
+            for code in 0..nw.pow(len as u32) {
+                let mut cc = code;
+                let mut limbs: Vec<u32> = vec![];
+                for _ in 0..len {
+                    limbs.push(words[cc % nw]);
+                    cc /= nw;
+                }
+                if *limbs.last().unwrap() == 0 {
+                    continue;
+                }
+                let x = BigInt::from(num_bigint::BigUint::new(limbs));
+                for sign in [1, -1] {
+                    let a = Dec { n: &x * sign, s: 0 };
+                    let xa = bd(&a);
+                    for b in partners.iter() {
+                        let xb = bd(b);
+                        t.states += 1;
+                        t.nontrivial += ds.len() as u64;
+                        check_pair(&run, &ds, &is, &xa, &xb, &a, b, &mut t);
+                    }
+                }
+            }
+        }
+        t
+    });
+
     // ---- S5: operands m*2^a*5^b against the shortcut operands (one in several spellings, zero, two, ten) ----
     let ab: Vec<u32> = tier.pick(vec![0, 1, 2, 26, 27, 28, 53, 54, 55, 56, 63, 64, 65, 81, 82, 108, 109, 120], (0..=124).collect());
     let tf = two_five_ints(&ab, &ab, &[1, -3]);
